@@ -91,7 +91,13 @@ def rules(model: Model, tier: str) -> List[RuleResult]:
 
     _check_batchdims(model, B)
     _check_zero_alloc(model, Z)
-    return [W, W2, P, Wp, T, S, B, Z]
+    from ..rules import c01_layout
+    N = RuleResult(PROP, "C01-N", "normal-equation fallback applies the same adjoint map to the operator and to the right-hand side", min_instances=3)
+    E = RuleResult(PROP, "C01-E", "shift/column layout of the shifted systems, exhaustive over batch patterns in the shape domain", min_instances=2)
+    c01_layout.check_normal_equations(model, N)
+    ncfg = c01_layout.check_shift_layout(model, E, tier)
+    rules.extra_coverage = dict(shape_configurations=ncfg)
+    return [W, W2, P, Wp, T, S, B, Z, N, E]
 
 
 # ------------------------------------------------------------------------------------------------
